@@ -156,6 +156,10 @@ def record_case(draw):
             n = draw(st.integers(0, w))
             vals.append(draw(st.text(alphabet='abcXYZ 019_-', min_size=n, max_size=n)))
     c = {'k': 'rec', 'table': tname, 'kind': kind, 'values': vals}
+    if draw(st.integers(0, 3)) == 0:
+        # the record goes through plain fixed_format_file objects (the documented way to use a format table), one per
+        # table and all alive at once, created in a drawn order
+        c['base'] = draw(st.permutations(sorted(tabs)))
     if len(vals) > 1 and draw(st.integers(0, 3)) == 0: c['keep'] = draw(st.integers(1, len(vals) - 1))     # a shorter list
     return c
 
@@ -374,6 +378,12 @@ def run_case(case, R):
     if case['k'] == 'libfile': return run_libfile(case, R)
     tname, kind = case['table'], case['kind']
     p = parser(tname)
+    if case.get('base'):
+        import fixed_format_file as fff, mulgrids
+        R.label('plain-fixed_format_file-objects:first-' + case['base'][0])
+        rf = {'t2incon': fff.fortran_read_function, 'mulgrid': mulgrids.mulgrid().read_function}
+        live = dict((t, fff.fixed_format_file(os.devnull, 'w', tables()[t], rf.get(t, fff.default_read_function))) for t in case['base'])
+        p = live[tname]
     names, fmts = tables()[tname][kind]
     if case['k'] == 'one':
         i = case['field']
